@@ -404,7 +404,7 @@ def real_tcds(fx: Fixture):
     return TestCaseDs(HomeDs(pathlib.Path(fx.home), pathlib.Path(fx.act_home)), SandboxDs(fx.sds_root))
 
 
-def real_program(defs, use_conf_name: str, use_expr, fx: Fixture, before_use=None):
+def real_program(defs, use_conf_name: str, use_expr, fx: Fixture, before_use=None, tcds=None):
     """-> (index of first rejected line or None, (SYNTAX,) | (VALIDATION,) | ('ok', kind, value))
     Lines are validated the way the executor does: validate_symbol_usages on the usages of each
     instruction, in order, against one growing symbol table."""
@@ -427,7 +427,8 @@ def real_program(defs, use_conf_name: str, use_expr, fx: Fixture, before_use=Non
     ddv = sdv.resolve(symbols)
     rel = ddv.relativity()
     kind = 'abs' if rel.is_absolute else _KIND_OF_REAL[rel.relativity_type.name]
-    value = ddv.value_of_any_dependency(real_tcds(fx))
+    # one test case has ONE directory-structure object: callers that model several uses within a case pass the same `tcds`
+    value = ddv.value_of_any_dependency(tcds if tcds is not None else real_tcds(fx))
     return None, ('ok', kind, str(value), ddv.path_suffix_str())
 
 
@@ -630,6 +631,11 @@ def created_as_expected(fx: Fixture, target: str, form: str, extra_dirs: Sequenc
         want |= set('/'.join(ps[:i]) for i in range(2, len(ps) + 1))
     if sandbox_entries(root) != sorted(want):
         return False
+    return target_ok(t, form)
+
+
+def target_ok(t: str, form: str) -> bool:
+    """`t` is what the instruction form makes: an empty directory / a regular file with the contents of the form"""
     contents = FORM_CONTENTS[form]
     if contents is None:
         return os.path.isdir(t) and not os.listdir(t)
